@@ -147,6 +147,7 @@ Definition replayable (p : pair R) : Prop :=
   | Pair r s e kids =>
       exists f a, run g f (body_sk g r) (body_atomicity g r a) (r_exp (g_rule g r))
                       (skipn (N.to_nat s) inp0) s = Ok (skipn (N.to_nat e) inp0, e, kids)
+                  /\ rule_records g r a = true
                   /\ (s <= e)%N /\ (N.to_nat e <= length inp0)%nat
   end.
 
@@ -177,12 +178,12 @@ Proof.
     + destruct (N.eqb i 0); [|discriminate]. inversion H; subst. exfalso; eapply in_forest_nil; exact Hp.
     + destruct inp; [|discriminate]. inversion H; subst. exfalso; eapply in_forest_nil; exact Hp.
     + dres H E. inversion H; subst.
-      destruct (rule_records g r a).
+      destruct (rule_records g r a) eqn:Hrec.
       * apply in_forest_single in Hp. destruct Hp as [->|Hp]; [|eapply IHr; eassumption].
         cbn [replayable]. exists f, a.
         pose proof (Cr _ _ _ _ _ _ _ _ E) as Hc.
         destruct (consumed_at_off Hat Hc) as [Hs' Hl']. destruct Hat as [Hs Hl].
-        rewrite <- Hs, <- Hs'. split; [exact E|]. split; [eapply consumed_le; exact Hc|exact Hl'].
+        rewrite <- Hs, <- Hs'. split; [exact E|]. split; [exact Hrec|]. split; [eapply consumed_le; exact Hc|exact Hl'].
       * eapply (IHr _ _ _ _ _ _ _ _ E); eassumption.
     + dres H E1. dres H E2. dres H E3. inversion H; subst.
       destruct (Hskip _ _ _ _ _ _ _ E2) as [C2 R2].
